@@ -8,6 +8,7 @@ pub uninterp spec fn cp_authentic(idx: int, cp: Seq<u8>) -> bool;
 pub uninterp spec fn filtered_ok(n: u64) -> bool;                     // gate of update_min_filtered_block_number
 pub uninterp spec fn matched_ok(start: u64, count: u64) -> bool;      // gate of add_matched_blocks
 pub uninterp spec fn block_number_ok(n: u64) -> bool;                 // gate of update_block_number (C09)
+pub uninterp spec fn scripts_cover_ok(n: u64) -> bool;                // gate of get_scripts_hash (C03, C09)
 
 #[verifier::external_body]
 pub struct FilterHashRaw { b: [u8; 32] }
@@ -95,8 +96,10 @@ impl Storage {
     pub fn get_check_points(&self, start_index: u32, limit: usize) -> (r: Vec<Byte32>)
         ensures start_index as int + limit as int <= self.s_last_cp().0 as int + 1 ==> r@.len() == limit,
                 forall|i: int| 0 <= i < r@.len() ==> cp_authentic(start_index as int + i, (#[trigger] r@[i])@) { unimplemented!() }
+    // GATE (C03/C09: "every block after the script's own recorded block number is examined"): the scripts a batch of filters
+    // is matched against are asked for with a bound that covers the whole batch
     #[verifier::external_body]
-    pub fn get_scripts_hash(&self, block_number: u64) -> (r: Vec<Byte32>) { unimplemented!() }
+    pub fn get_scripts_hash(&self, block_number: u64) -> (r: Vec<Byte32>) requires scripts_cover_ok(block_number) { unimplemented!() }
     // GATES
     #[verifier::external_body]
     pub fn update_min_filtered_block_number(&self, block_number: u64)
